@@ -7,7 +7,7 @@ import shutil
 import tempfile
 from concurrent.futures import ThreadPoolExecutor
 
-from .core import CACHE, NCPU, REPO, RuleResult, BuildFailed, run, Lock
+from .core import CACHE, NCPU, REPO, REPO_TAG, RuleResult, BuildFailed, run, Lock
 from .emodel import AnchorError
 from .tree import kind, strip_ln, walk, nospace
 
@@ -119,8 +119,8 @@ def rule_det_emitted(p):
 
 def runtime_rlib():
     """Metadata-bearing rlib of the working tree's eqlog-runtime (built once per tree hash by cargo's own freshness check)."""
-    tdir = os.path.join(CACHE, "rt-target")
-    with Lock("rt.lock"):
+    tdir = os.path.join(CACHE, "rt-target" + REPO_TAG)
+    with Lock("rt%s.lock" % REPO_TAG):
         p = run(["cargo", "build", "--offline", "--lib", "--message-format=json"], cwd=os.path.join(REPO, "eqlog-runtime"), env={"CARGO_TARGET_DIR": tdir})
         if p.returncode != 0:
             raise BuildFailed("cargo build of eqlog-runtime failed:\n" + p.stderr[-4000:])
